@@ -72,5 +72,21 @@ def post(prop, tier, seed, res):
         else:
             viol.append("VIOLATION property=C17 replay=%s no-failing-input-found" % rel)
         extra["failed_obligations"] = [t for t, _ in failed]
+    # the generated mask predicates (dense_maskcmp_methods.go) are per-element-type instances too:
+    # every instance must be the modelled template after renaming the type (tools/mask_uniform.py)
+    pm = subprocess.run([sys.executable, os.path.join(vlib.VERIF, "tools", "mask_uniform.py"), vlib.REPO], capture_output=True, text=True)
+    extra["mask_predicate_uniformity"] = dict(ok=(pm.returncode == 0))
+    if pm.returncode != 0:
+        d = os.path.join(vlib.VERIF, "evidence", "replays")
+        os.makedirs(d, exist_ok=True)
+        rp = os.path.join(d, "C17-mask-template.replay")
+        bad_inputs = [r for r in list(res["violations"]) + [r for c, v in res["known"].items() if vlib.lookup_known(prop, c) is None for r in v] if r["case"].startswith("mk")]
+        with open(rp, "w") as f:
+            f.write("# obligation 'every element type's mask predicate is an instance of the one template' no longer holds (tools/mask_uniform.py):\n")
+            for l in pm.stdout.strip().splitlines():
+                f.write("# " + l + "\n")
+            for r in bad_inputs[:20]:
+                f.write("%s => %s\n" % (r["case"], r["impl"]))
+        viol.append("VIOLATION property=C17 replay=%s%s" % (os.path.relpath(rp, vlib.VERIF), "" if bad_inputs else " no-failing-input-found"))
     return extra, viol, ["kx translator (go/ast, stdlib only) is trusted to transcribe the generated Go sources; it is deterministic and exits non-zero on parse errors",
                          "vecf32/vecf64 assembly kernels are opaque calls in the table (external code)"]
